@@ -42,7 +42,7 @@ def run(ctx):
     for case, rng in ctx.cases(total):
         conv = CONVENTIONS[case % len(CONVENTIONS)]
         spec = {'case': case, 'convention': conv}
-        ctx.run_case(spec, one_dataset, obs, rng, conv, spec)
+        ctx.run_case(spec, one_dataset, obs, rng, conv, spec, ctx.workdir)
 
 
 def check_selection(obs, model, sel, kname, ns, dim, what, mech, present_ok=True):
@@ -57,7 +57,7 @@ def check_selection(obs, model, sel, kname, ns, dim, what, mech, present_ok=True
         if not obs.expect(name in sel.variables, what + ': variable on the selected grid must be present', lambda: {'var': name}, mech=mech):
             continue
         got = sel[name]
-        canon = var.typed(var.canon)
+        canon = var.expected(var.canon, getattr(model, 'source', 'memory'))
         if dim is None:
             want = canon[..., ns[0]]
             want_dims = var.extra_dims
@@ -79,9 +79,12 @@ def check_selection(obs, model, sel, kname, ns, dim, what, mech, present_ok=True
         obs.expect(g not in sel.variables, what + ': geometry variable must be absent', lambda: {'var': g}, mech='geometry-present')
 
 
-def one_dataset(obs, rng, conv, spec):
+def one_dataset(obs, rng, conv, spec, workdir=None):
     model = make_dressed(rng, conv, dress=dict(per_kind=(1, 2), nongrid=1))
-    ds = model.encode()
+    ds, source = model.materialise(rng, workdir)
+    obs.cls('source:' + source)
+    spec['source'] = source
+    model.source = source
     with quiet_warnings():
         ems = obs.call('dataset.ems', lambda: ds.ems)
         if isinstance(ems, Failed):
@@ -241,7 +244,7 @@ def one_dataset(obs, rng, conv, spec):
                 if not obs.expect(name in out.variables, 'fill: variable on the face grid present', lambda: {'var': name}, mech='points-values'):
                     continue
                 got = out[name].transpose(*var.extra_dims, dim_used).values
-                canon = var.typed(var.canon)
+                canon = var.expected(var.canon, source)
                 ok = True
                 for row, n in enumerate(located):
                     col = got[..., row]
